@@ -239,7 +239,7 @@ func (s *skelWriter) writeTypeTable(pkg *types.Package) {
 			fmt.Fprintf(s.w, "\n (iface %s %s", sq(p.Path()), sq(name))
 			for i := 0; i < iface.NumMethods(); i++ {
 				m := iface.Method(i)
-				fmt.Fprintf(s.w, " (m %s %s)", sq(m.Name()), s.rsig(m.Type().(*types.Signature), 0))
+				fmt.Fprintf(s.w, " (m %s %s %s)", sq(m.Name()), s.rsig(m.Type().(*types.Signature), 0), sq(namePkg(m)))
 			}
 			s.w.WriteString(")")
 		}
@@ -267,7 +267,7 @@ func (s *skelWriter) writeTypeTable(pkg *types.Package) {
 			if vs.Lookup(m.Pkg(), m.Name()) != nil {
 				inv = 1
 			}
-			fmt.Fprintf(s.w, " (m %s %s %d)", sq(m.Name()), s.rsig(m.Type().(*types.Signature), 0), inv)
+			fmt.Fprintf(s.w, " (m %s %s %d %s)", sq(m.Name()), s.rsig(m.Type().(*types.Signature), 0), inv, sq(namePkg(m)))
 		}
 		s.w.WriteString(")")
 	}
@@ -585,4 +585,12 @@ func cmdSkel(args []string) int {
 		w.WriteString(")\n")
 	}
 	return rc
+}
+
+// namePkg: the package that qualifies an unexported method name (types.Id); "" for an exported one
+func namePkg(m *types.Func) string {
+	if m.Exported() || m.Pkg() == nil {
+		return ""
+	}
+	return m.Pkg().Path()
 }
